@@ -30,13 +30,17 @@ CondSeq == SetToSeq(Conds)
 Exprs ==
   { Rt(<<NKey(KA)>>), Rt(<<NAnyArr>>), Rt(<<NKey(KA), NKey(KB)>>), Rt(<<NAnyArr, NKey(KA)>>), <<NUn("minus", Rt(<<NAnyArr>>))>>,
     <<NVar(KM)>>, <<NBin("div", Rt(<<NKey(KA)>>), Lit(0))>>, Rt(<<NAnyArr, NFilter(NBin("gt", <<NCur>>, Lit(1)))>>), Lit(1),
-    Rt(<<NAny(0, -1), NKey(KA)>>), Rt(<<NAnyArr, NMethod("integer")>>), Rt(<<NIdx(<<Sub1(Lit(5))>>)>>) }
+    Rt(<<NAny(0, -1), NKey(KA)>>), Rt(<<NAnyArr, NMethod("integer")>>), Rt(<<NIdx(<<Sub1(Lit(5))>>)>>),
+    (* subscript lists / ranges followed by a step: a hit on an earlier subscript and a miss on the last one *)
+    Rt(<<NIdx(<<Sub1(Lit(0)), Sub1(Lit(1))>>), NKey(KA)>>), Rt(<<NIdx(<<Sub1(Lit(1)), Sub1(Lit(0))>>), NKey(KA)>>),
+    Rt(<<NIdx(<<Sub1(Lit(0)), Sub1(<<NLast>>)>>), NFilter(NBin("gt", <<NCur>>, Lit(1)))>>),
+    Rt(<<NIdx(<<Sub2(Lit(0), Lit(1))>>), NFilter(NBin("lt", <<NCur>>, Lit(1)))>>) }
 ExprSeq == SetToSeq(Exprs)
 DocSeq == SetToSeq(
   { VObj(<<>>), VObj(<<[k |-> KA, v |-> VFlt(1)]>>), VObj(<<[k |-> KA, v |-> VFlt(2)]>>), VObj(<<[k |-> KA, v |-> VStr(KX)]>>),
     VObj(<<[k |-> KA, v |-> VNull], [k |-> KB, v |-> VNull]>>), VObj(<<[k |-> KA, v |-> VArr(<<VFlt(1), VFlt(2)>>)]>>),
     VArr(<<VFlt(0), VFlt(1), VFlt(2)>>), VArr(<<VFlt(1), VStr(KA)>>), VArr(<<VStr(KA), VFlt(2)>>), VArr(<<>>),
-    VArr(<<VObj(<<[k |-> KA, v |-> VFlt(2)]>>), VFlt(3)>>), VFlt(1), VFlt(2), VStr(KA), VNull, VTrue })
+    VArr(<<VObj(<<[k |-> KA, v |-> VFlt(2)]>>), VFlt(3)>>), VArr(<<VFlt(2), VFlt(0)>>), VFlt(1), VFlt(2), VStr(KA), VNull, VTrue })
 
 (* conditions over @ for the in-filter form; several rebind @ in a nested   *)
 (* filter before the other operand reads the outer @                         *)
